@@ -95,6 +95,15 @@ def check_interval_view(ctx, A, B, blocks, strand, cs, ce, g, what, cst="+"):
         cb = sorted((dn(p), dn(p) + 1) for p in inside)
         ctx.eq(what + ":chunk_relative_dict_blocks", sorted(rm.posset(list(zip(dr[key + "_starts"], dr[key + "_ends"])))), sorted(p_ for p_, _ in cb))
         ctx.true(what + ":chunk_relative_dict_starts_before_ends", all(a < b for a, b in zip(dr[key + "_starts"], dr[key + "_ends"])), [dr[key + "_starts"], dr[key + "_ends"]])
+        # ... on the strand the interval has in chunk coordinates, so that the dictionary rebuilt on the chunk sequence alone
+        # (the chunk taken as a chromosome of its own) is the same molecule
+        ctx.eq(what + ":chunk_relative_dict_strand", dr["strand"], {"+": "PLUS", "-": "MINUS"}[rm.compose(strand, cst)])
+        chunk_seq = g[cs:ce] if cst == "+" else rm.revcomp(g[cs:ce])
+        try:
+            C = type(B).from_dict(dr, chrom_parent(chunk_seq))
+            ctx.eq(what + ":chunk_relative_dict_rebuilt_spliced_sequence", str(C.get_spliced_sequence()), str(B.get_spliced_sequence()))
+        except (BioCantorException, ValueError) as e:
+            ctx.fail(what + ":chunk_relative_dict_rebuild_raises", repr(e)[:120])
         if dr.get("cds_starts"):
             ctx.true(what + ":chunk_relative_dict_cds_starts_before_ends", all(a <= b for a, b in zip(dr["cds_starts"], dr["cds_ends"])), [dr["cds_starts"], dr["cds_ends"]])
             ctx.true(what + ":chunk_relative_dict_cds_inside_exons", rm.posset(list(zip(dr["cds_starts"], dr["cds_ends"]))) <= rm.posset(list(zip(dr[key + "_starts"], dr[key + "_ends"]))),
